@@ -4,7 +4,7 @@ import BridgeVerif.Translated.Hands
 import BridgeVerif.Translated.PbnWriterLemmasB
 /-! Translated `MainThread` (`_sync_event`, `deal`, `bidding_phase`): the world object's methods on the encoded world,
 small evaluation lemmas -/
-namespace Bridge.Translated
+namespace Bridge.Translated.MainA
 open Bridge Bridge.Py Bridge.Generated.PyCore
 
 /-! ## method tables -/
@@ -173,4 +173,4 @@ theorem mt_cards_eq (n : List Char) (h : List Card) :
   simp only [List.flatten_cons, List.flatten_nil, List.append_nil, List.append_assoc]
   rfl
 
-end Bridge.Translated
+end Bridge.Translated.MainA
